@@ -231,7 +231,7 @@ def failing_statement(make_output):
             return "%s: %s %s (line %d)" % (m.group(1), mm.group(1), mm.group(2), line)
     return "%s line %d" % (m.group(1), line)
 
-def proof_step(pid, extra_props=()):
+def proof_step(pid, tier="quick"):
     """Build Props/<pid>.vo, re-run the property file to capture Print Assumptions, audit.
     Returns dict(obligations, discharged, theorems=[(name, assumptions, ok)], errors=[...])."""
     res = {"obligations": 0, "discharged": 0, "theorems": [], "errors": [], "files": []}
@@ -291,6 +291,24 @@ def proof_step(pid, extra_props=()):
             res["errors"].append("theorem %s depends on non-allow-listed axioms %s" % (nm, bad))
         res["theorems"].append((nm, amap[nm], ok))
     res["discharged"] = sum(1 for t in res["theorems"] if t[2]) + (1 if audit_ok else 0)
+    if tier == "thorough":
+        # independent re-check of the compiled property file and everything it depends on
+        res["obligations"] += 1
+        rc, out = sh("timeout 2400 coqchk -silent -o -Q . OV OV.Props.%s 2>&1" % pid, cwd=COQDIR, timeout=2500)
+        m = re.search(r"\* Axioms:(.*?)\n\s*\n\* Constants/Inductives relying on type-in-type:(.*?)\n\s*\n\* Constants/Inductives relying on unsafe \(co\)fixpoints:(.*?)\n\s*\n\* Inductives whose positivity is assumed:(.*?)\n", out, re.S)
+        if rc != 0 or not m:
+            res["errors"].append("coqchk failed on Props/%s.vo:\n%s" % (pid, out[-1500:]))
+        else:
+            axioms = [a.strip() for a in m.group(1).split("\n") if a.strip() and a.strip() != "<none>"]
+            res["coqchk_axioms"] = axioms
+            unsafe = [g.strip() for g in (m.group(2), m.group(3), m.group(4)) if g.strip() != "<none>"]
+            okax = all(any(a.endswith(x) or x in a for x in AXIOM_ALLOW) or a.startswith(("Coq.Floats", "Coq.Numbers.Cyclic.Int63", "Coq.Reals", "Flocq", "Coq.Logic")) for a in axioms)
+            if unsafe:
+                res["errors"].append("coqchk: development relies on disabled kernel checks: %s" % unsafe)
+            elif not okax:
+                res["errors"].append("coqchk: axioms outside the allow-list: %s" % axioms)
+            else:
+                res["discharged"] += 1
     return res
 
 # ----------------------------------------------------------------------------- running both sides
